@@ -215,7 +215,7 @@ def deep_clone(v):
     if isinstance(v, RString):
         return RString(v.s)
     if isinstance(v, Closure):
-        return Closure(v.name, [deep_clone(x) for x in v.caps], v.env)
+        return Closure(v.name, [deep_clone(x) for x in v.caps], v.env, v.body)
     return v  # scalars, FV (immutable), Ref (pointer copy), str, Opaque
 
 
@@ -536,12 +536,14 @@ class Interp:
         self.covered = {}     # body name -> sha
         self.model_hits = {}
         self.closures = {}
+        self.closures_all = {}     # span -> every closure body printed with it (macro / derive output shares one span)
         for name, bs in mir.bodies.items():
             for b in bs:
                 if '{closure#' in name.split('::')[-1]:
                     m = re.search(r'\{closure@[^}]*\}', b.param_tys[0] if b.param_tys else '')
                     if m:
                         self.closures[m.group(0)] = b
+                        self.closures_all.setdefault(m.group(0), []).append(b)
         self._resolve_cache = {}
         self.self_stack = []
         self.tyenv = []
@@ -760,6 +762,10 @@ class Interp:
         c = self.lookup_const(text)
         if c is not None:
             return c
+        m = re.match(r'([\w:]+) \{\{\s*\}\}$', text)
+        if m:
+            # field-less struct constant, e.g. `v1::Unbounded {{  }}`
+            return Agg([], m.group(1))
         # fieldless enum variant / unit struct constants are printed as paths
         v = self.models.adt(text, [])
         if v is not None:
@@ -836,6 +842,43 @@ class Interp:
             return ty
         return None
 
+    def pick_closure(self, body, name, ops):
+        """the closure body constructed here; None when its span identifies it (the common case)"""
+        m = re.search(r'\{closure@[^}]*\}', name)
+        cands = self.closures_all.get(m.group(0), []) if m else []
+        if len(cands) <= 1:
+            return None
+        inside = [b for b in cands if b.name.startswith(body.name + '::{closure#')]
+        if inside:
+            cands = inside
+        if len(cands) > 1:
+            want = [self.op_ty(body, o) for o in ops]
+            for i, o in enumerate(ops):
+                mz = re.match(r'([\w:]+) \{\{\s*\}\}$', o[1]) if o[0] == 'const' and isinstance(o[1], str) else None
+                if mz:
+                    want[i] = 'zst:' + mz.group(1)
+            keep = []
+            for b in cands:
+                zst = set(re.findall(r'=> const ([\w:]+) \{\{\s*\}\}', b.text))
+                if any(w and w.startswith('zst:') and w[4:] not in zst for w in want) or \
+                        zst - {w[4:] for w in want if w and w.startswith('zst:')}:
+                    continue
+                want_ = [None if w and w.startswith('zst:') else w for w in want]
+                tys = {}
+                for mm in re.finditer(r'\(_1\.(\d+): ', b.text):
+                    j = mm.end()
+                    depth, e = 1, j
+                    while depth:
+                        depth += {'(': 1, ')': -1}.get(b.text[e], 0)
+                        e += 1
+                    tys[int(mm.group(1))] = norm_ty(b.text[j:e - 1])
+                if all(w is None or i not in tys or norm_ty(w) == tys[i] for i, w in enumerate(want_)):
+                    keep.append(b)
+            cands = keep
+        if len(cands) != 1:
+            raise Unsupported(f'closure {name} constructed in {body.name}: {len(cands)} candidate bodies share its span')
+        return cands[0]
+
     def rvalue(self, body, loc, rv):
         k = rv[0]
         if k == 'use':
@@ -870,7 +913,7 @@ class Interp:
                 raise Unsupported('aggregate ' + rv[1])
             return v
         if k == 'closure':
-            return Closure(rv[1], [self.operand(body, loc, o) for o in rv[2]], self.cur_env())
+            return Closure(rv[1], [self.operand(body, loc, o) for o in rv[2]], self.cur_env(), self.pick_closure(body, rv[1], rv[2]))
         if k == 'cast':
             v = self.operand(body, loc, rv[1])
             return self.cast(v, self.op_ty(body, rv[1]), rv[2], rv[3])
@@ -1183,7 +1226,7 @@ class Interp:
         while isinstance(f, Ref):
             f = f.get()
         if isinstance(f, Closure):
-            b = self.closures.get(re.search(r'\{closure@[^}]*\}', f.name).group(0))
+            b = f.body or self.closures.get(re.search(r'\{closure@[^}]*\}', f.name).group(0))
             if b is None:
                 raise Unsupported('closure body not found: ' + f.name)
             first = b.param_tys[0].strip()
